@@ -170,7 +170,7 @@ theorem body_13 (d d' : Dict) (m : Bytes) (h : conv_13_14 d = some d')
     dget d' m = dget (setVersion d 14) m := by
   have base : dget (dset (setVersion d 14) (s "comment") (Value.str [])) m = dget (setVersion d 14) m :=
     dget_dset_ne _ _ _ _ h2
-  unfold conv_13_14 at h
+  unfold conv_13_14 conv_13_14F at h
   simp only [Option.bind_eq_bind, Option.pure_def] at h
   split at h
   · split at h
